@@ -329,6 +329,22 @@ def gen_override_ropts(rng, pf):
         ro["index"] = rng.choice([None, False] + list(pf.columns)[:1])
     if rng.random() < 0.25:
         ro["empty"] = "slice"
+    # columns= crossed with dtypes=: the mapping covers ALL stored columns while a subset is requested ("all"), or names fewer
+    # columns than are requested ("sub"): the frame has the requested columns the mapping names, read with the mapping's dtypes
+    cols = list(pf.columns)
+    r = rng.random()
+    if r < 0.3 and len(cols) >= 2:
+        k = rng.randint(1, len(cols) - 1)
+        sub = rng.sample(cols, k)
+        ro["columns"] = [c for c in cols if c in sub]
+        ro["dtypes_scope"] = "all"
+        if isinstance(ro["index"], str) and ro["index"] not in ro["columns"]:
+            ro["index"] = None
+    elif r < 0.5 and len(cols) >= 2:
+        cand = [c for c in cols if c != ro["index"]]
+        if cand:
+            ro["dtypes_scope"] = "sub"
+            ro["dtypes_drop"] = [rng.choice(cand)]
     return ro
 
 
@@ -425,6 +441,12 @@ def examine(case, path, pq=None, ctx=None):
             except Exception:        # noqa
                 basep = pred
         dts = {c: basep[c] for c in want + [i for i in (idx or []) if i not in want] if c in basep}
+        if ro.get("dtypes_scope") == "all":
+            dts.update({c: basep[c] for c in cols if c in basep and c not in dts})       # a superset of what is requested
+        elif ro.get("dtypes_scope") == "sub":
+            for c in ro.get("dtypes_drop") or []:
+                if c not in (idx or []):
+                    dts.pop(c, None)                                                          # fewer columns than requested
         dts.update(dict(ro["dtypes"] or {}))
         kw["dtypes"] = dts
         # what the caller's mapping promises: its dtype for every column, except that a column read as a category (the
@@ -455,6 +477,9 @@ def examine(case, path, pq=None, ctx=None):
     # ---------------- columns / index ----------------
     multi_cols = isinstance(df.columns, pd.MultiIndex)
     exp_cols = [c for c in want if c not in (idx or [])]
+    if "dtypes" in kw:
+        # with a dtypes= mapping: the requested columns that the mapping names
+        exp_cols = [c for c in exp_cols if c in kw["dtypes"] or c in pcats]
     if multi_cols:
         if ctx is not None:
             ctx.count("skipped", "column multi-index")
@@ -881,7 +906,7 @@ def run(ctx):
             rc.count("opt.categories", "invalid" if case["ropts"].get("invalid_categories") else type(case["ropts"]["categories"]).__name__)
             rc.count("opt.index", "None" if case["ropts"]["index"] is None else type(case["ropts"]["index"]).__name__)
             rc.count("opt.columns", "subset" if case["ropts"]["columns"] is not None else "all")
-            rc.count("opt.dtypes", "%s/%s" % (bool(case["ropts"]["dtypes"]), case["ropts"].get("dtypes_base")))
+            rc.count("opt.dtypes", "%s/%s/%s" % (bool(case["ropts"]["dtypes"]), case["ropts"].get("dtypes_base"), case["ropts"].get("dtypes_scope")))
             rc.count("opt.empty_selection", case["ropts"].get("empty"))
             rc.count("opt.strip", (case.get("strip") or {}).get("mode"))
             rc.count("view", case.get("view") or ("simple+partition_on" if case["source"] == "written" and case["wopts"].get("partition_on") and case["wopts"]["file_scheme"] == "simple" else "whole"))
